@@ -64,6 +64,11 @@ func macVerdict(raw []byte, keyOf func(p *scionPkt) []byte, wantSPI uint32) (pre
 
 func c13World(t *testing.T, r *simcore.Run) any {
 	tp := r.Tape
+	// address family of the SCION hosts (and of their underlay): IPv4, or IPv6 in a third of the runs
+	scV6Next = tp.Bool(1, 3, "ipv6")
+	if scV6Next {
+		r.Probe("ipv6-hosts")
+	}
 	w := newSCIONWorld(r, time.Duration(tp.Range(0, int64(2*time.Second), "srvoff")), 1)
 	w.net.OnSend = nil
 	srvAuth := tp.Bool(2, 3, "srvauth")
@@ -107,7 +112,7 @@ func c13World(t *testing.T, r *simcore.Run) any {
 
 	// sinks for forwarded packets
 	const otherPort = 40555
-	sink, err := w.net.Listen(fmt.Sprintf("%s:%d", scSrvIP, otherPort), false)
+	sink, err := w.net.Listen(hp(scSrvIP, otherPort), false)
 	if err != nil {
 		panic(err)
 	}
@@ -149,7 +154,7 @@ func c13World(t *testing.T, r *simcore.Run) any {
 				return false, nil
 			}
 			kind = "readdressed-under-other-hosts-key"
-			if rb := c13Rebuild(p, "10.0.0.9", keyOf(p), scion.PacketAuthSPIClient, false, false); rb != nil {
+			if rb := c13Rebuild(p, scOtherIP, keyOf(p), scion.PacketAuthSPIClient, false, false); rb != nil {
 				mut = rb
 			} else {
 				return false, nil
@@ -315,7 +320,7 @@ func c13World(t *testing.T, r *simcore.Run) any {
 	craft := func(l4dst uint16, underlayPort int, scmpType slayers.SCMPType, pld []byte) {
 		// a packet from the attacker's side of the router straight to a server socket
 		raw := buildSCION(scCliIA, scSrvIA, scCliIP, scSrvIP, 41000, l4dst, segLens, scmpType, pld)
-		d := w.net.NewDatagram(netip.AddrPortFrom(netip.MustParseAddr("10.0.1.1"), scRouterPort),
+		d := w.net.NewDatagram(netip.AddrPortFrom(netip.MustParseAddr(scRouterIP(0)), scRouterPort),
 			netip.AddrPortFrom(netip.MustParseAddr(scSrvIP), uint16(underlayPort)), raw, "crafted")
 		w.net.Inject(d, 40*time.Microsecond)
 	}
@@ -391,6 +396,9 @@ func c13World(t *testing.T, r *simcore.Run) any {
 				} else {
 					okN++
 					r.Probe("measurement-ok")
+					if scV6 {
+						r.Probe("measurement-ok-ipv6")
+					}
 				}
 			}
 		}
